@@ -204,6 +204,17 @@ func (p *inlineParser) render() {
 				p.buf.push(htmlPiece(p.text[begin:p.pos]))
 				return true
 			}
+			// "/" and "?" may also start the local part of an email autolink.
+			parseEmailAutolink := func() bool {
+				autolink := emailAutolinkRegexp.FindString(p.text[begin:])
+				if autolink == "" {
+					return false
+				}
+				p.pos = begin + len(autolink)
+				text := UnescapeHTML(autolink[1 : len(autolink)-1])
+				p.buf.push(piece{main: InlineOp{Type: OpAutolink, Text: text, Dest: "mailto:" + text}})
+				return true
+			}
 			switch p.text[p.pos] {
 			case '!':
 				switch {
@@ -231,9 +242,15 @@ func (p *inlineParser) render() {
 					p.pos += closer + 2
 					continue
 				}
+				if parseEmailAutolink() {
+					continue
+				}
 			case '/':
 				// Try parsing a closing tag.
 				if parseWithRegexp(closingTagRegexp) {
+					continue
+				}
+				if parseEmailAutolink() {
 					continue
 				}
 			default:
